@@ -435,3 +435,38 @@ def rule_appended_runs(ctx, R):
             R.finding(b.fn, "gate-after-append:%s" % shared.short_callee(f).split("::")[-1],
                       "process_normal_command tests %s (line %d) after the command was appended to the AOF and refuses with an error reply (line %d) without running it: every write refused by this gate is already in the log and is applied when the log is replayed" % (shared.short_callee(f), b.bb_line(i), b.bb_line(bad)), b.loc(i))
     R.inst(b.fn, "gates-after-append", {"bool_tests_after_the_append_other_than_name_comparisons": n})
+
+
+# ---- R-AOF-OPENMODE -------------------------------------------------------------------------------
+def rule_openmode(ctx, R):
+    """the log grows at its end across restarts: every function of the AOF engine that opens the
+    file at the log path itself (not a derived temporary) and stores it as the writer opens it
+    in append mode.  `write(true)` alone starts at offset 0 of the existing log: the next session
+    overwrites the head of the previous one and leaves its tail behind, mid-frame."""
+    import rules_rdb
+    n = 0
+    for fn, b in sorted(ctx.prog.bodies.items()):
+        if not fn.startswith("storage::aof::") or "::tests::" in fn or b.kind == "Closure":
+            continue
+        if not _writer_stores(b):
+            continue
+        for i, t in b.calls():
+            f = t["f"] or ""
+            if not re.search(r"OpenOptions::open(::<.*>)?$|File::create(_new)?(::<.*>)?$|File::options$", f) or not t["a"]:
+                continue
+            path = t["a"][-1]
+            if op_is_const(path):
+                continue
+            P = prov.operand_origins(b, path)
+            if LOG_PATH not in P.fields or P.has_call(r"with_extension|with_file_name|PathBuf::push|join"):
+                continue
+            m = rules_rdb.open_mode(ctx, b, i, t)
+            n += 1
+            if m is None:
+                R.broken.append("%s: the open mode of the log at %s is not constant" % (fn, b.loc(i))); continue
+            ok = bool(m.get("append")) and not m.get("truncate")
+            R.inst(fn, "log-open-mode", {"function": fn, "at": b.loc(i), "mode": {k: v for k, v in sorted(m.items())}, "append_without_truncate": ok})
+            if not ok:
+                R.finding(fn, "log-open:not-append",
+                          "%s opens the log at the log path with %s: an existing log is %s when the server starts on it again" % (fn.split("::")[-1], sorted(k for k, v in m.items() if v), "truncated" if m.get("truncate") else "overwritten from offset 0 (head replaced, old tail left behind mid-frame)"), b.loc(i))
+    R.floor("log_opens", n)
